@@ -1,6 +1,103 @@
-//! C17 — not implemented yet.
+//! C17 — clamp, range test, wrap, ping-pong and angle difference obey their range laws.
+//!
+//! * `ints`   — i128 models, the F7 signature, exhaustive 8-bit index checks, stratified wide-integer tapes
+//! * `floats` — f32 / f64 laws with derived tolerances
+//! * `lifts`  — vector forms apply the scalar law per element
+
+pub mod floats;
+pub mod ints;
+pub mod lifts;
+
+use std::num::Wrapping;
 use vkit::*;
 
+const CUBE: u64 = ints::CUBE_N * ints::CUBE_N * ints::CUBE_N;
+
 pub fn property() -> Property {
-    Property { id: "C17", rule: "", assumptions: &[], checks: Vec::new(), max_discard_frac: 0.2 }
+    let mut checks = Vec::new();
+    macro_rules! index {
+        ($name:expr, $about:expr, $total:expr, $q:expr, $th:expr, $f:expr) => {
+            checks.push(Check { name: $name, about: $about, kind: Kind::Index { total: $total, quick: $q, thorough: $th, f: $f } });
+        };
+    }
+    macro_rules! tape {
+        ($name:expr, $about:expr, $len:expr, $q:expr, $th:expr, $f:expr) => {
+            checks.push(Check { name: $name, about: $about, kind: Kind::Tape { len: $len, quick: $q, thorough: $th, f: $f } });
+        };
+    }
+    const A_CLAMP_O: &str = "T^3 part 1, every (value, lower, upper) with lower <= upper: clamped / Clamp::clamp / clamped_to_inclusive_range / clamp_to_inclusive_range equal the model (v if lower<=v<=upper else the nearer bound) and do not panic; is_between / is_between_inclusive_range_bounds equal lower<=v<=upper; is_between <=> clamped is the identity; clamped is idempotent and lands in [lower, upper]";
+    const A_CLAMP_U: &str = "T^3 part 2, every (value, lower, upper) with lower > upper: all six clamp / is_between forms panic (with part 1: panic <=> not lower<=upper on all 2^24 triples)";
+    const A_WB_V: &str = "T^3 part 1, every (value, lower, upper) with 0 <= lower < upper: wrapped_between / Wrap::wrap_between return the unique r in [lower, upper) with r = value (mod upper-lower) (always representable) without panicking; inputs where a mathematical intermediate of vek's formula leaves T carry the F7 signature, all others must match exactly";
+    const A_WB_I: &str = "T^3 part 2, every (value, lower, upper) with lower >= upper or lower < 0: wrapped_between / wrap_between panic (with part 1: all 2^24 triples)";
+    const A_W: &str = "every (value, upper) in T^2: wrapped / Wrap::wrap return the unique r in [0, upper) with r = value (mod upper) for upper > 0, panic for upper <= 0; F7 signature as for wrapped_between(0, upper) on signed types";
+    const A_PP: &str = "every (value, upper) in T^2: pingpong is the triangle wave of period 2*upper through (0,0) and (upper,upper) (distance to the nearest multiple of 2*upper, in [0, upper]) for upper > 0, panic for upper <= 0; F7 signature: upper+upper or an intermediate of the inner wrapped(2*upper) leaves T";
+    const A_UN: &str = "every value of T: clamped01 / clamp01 / is_between01 against the model with bounds (0,1); clamped_minus1_1 / clamp_minus1_1 with bounds (-1,1) where T has Neg (for Wrapping<unsigned> -1 is MAX: bounds unordered, panic required)";
+    const A_CUBE_C: &str = "the clamp laws on the full boundary cube {MIN, MIN+1, MIN+2, .., -3..3, .., 63..66, .., MAX-2, MAX-1, MAX}^3 of the type";
+    const A_CUBE_W: &str = "the wrapped_between laws on the full boundary cube of the type";
+    macro_rules! eight_bit {
+        ($T:ty, $n:expr, $nv:expr, $ni:expr) => {
+            index!(concat!("clamp3-ordered-", $n), A_CLAMP_O, ints::N_ORDERED, 1 << 20, ints::N_ORDERED, ints::clamp3_ordered::<$T>);
+            index!(concat!("clamp3-unordered-", $n), A_CLAMP_U, ints::N_UNORDERED, 1 << 15, ints::N_UNORDERED, ints::clamp3_unordered::<$T>);
+            index!(concat!("clamp-cube-", $n), A_CUBE_C, CUBE, CUBE, CUBE, ints::cube_clamp::<$T>);
+            index!(concat!("wrapbetween3-valid-", $n), A_WB_V, $nv, 1 << 20, $nv, ints::wrapbetween3_valid::<$T>);
+            index!(concat!("wrapbetween3-invalid-", $n), A_WB_I, $ni, 1 << 15, $ni, ints::wrapbetween3_invalid::<$T>);
+            index!(concat!("wrapbetween-cube-", $n), A_CUBE_W, CUBE, CUBE, CUBE, ints::cube_wrapbetween::<$T>);
+            index!(concat!("wrapped2-", $n), A_W, 1 << 16, 1 << 16, 1 << 16, ints::wrapped2::<$T>);
+            index!(concat!("pingpong2-", $n), A_PP, 1 << 16, 1 << 16, 1 << 16, ints::pingpong2::<$T>);
+            index!(concat!("unary1-", $n), A_UN, 256, 256, 256, ints::unary1::<$T>);
+        };
+    }
+    eight_bit!(i8, "i8", ints::N_WRAP_VALID_S, ints::N_WRAP_INVALID_S);
+    eight_bit!(u8, "u8", ints::N_WRAP_VALID_U, ints::N_WRAP_INVALID_U);
+    eight_bit!(Wrapping<i8>, "wrapping-i8", ints::N_WRAP_VALID_S, ints::N_WRAP_INVALID_S);
+    eight_bit!(Wrapping<u8>, "wrapping-u8", ints::N_WRAP_VALID_U, ints::N_WRAP_INVALID_U);
+
+    tape!("wide-clamp", "the clamp / is_between / unit-interval laws of clamp3 + unary1 on i16 i32 i64 isize u16 u32 u64 usize and their Wrapping forms (type chosen by the tape), stratified values (limits, small, 2^k+-1, random, neighbours of the bounds) against the same i128 model", 48, 40_000, 2_000_000, ints::wide_clamp);
+    tape!("wide-wrapbetween", "the wrapped_between / wrap_between law of wrapbetween3 on the 16 wider integer types, stratified values, same i128 model and F7 signature", 48, 60_000, 3_000_000, ints::wide_wrapbetween);
+    tape!("wide-wrapped", "the wrapped / wrap law of wrapped2 on the 16 wider integer types, stratified values, same i128 model and F7 signature", 48, 40_000, 2_000_000, ints::wide_wrapped);
+    tape!("wide-pingpong", "the pingpong law of pingpong2 on the 16 wider integer types, stratified values, same i128 model and F7 signature", 48, 40_000, 2_000_000, ints::wide_pingpong);
+    tape!("int-delta-degrees", "i32 / i64 delta_angle_degrees with |self|,|target| <= MAX/4 (no intermediate can leave T): exactly the unique value in (-180, 180] congruent to target-self modulo 360", 32, 10_000, 500_000, ints::int_delta_degrees);
+    tape!("int-partial-minmax", "partial_min / partial_max on i64: one of the arguments, bounding both", 24, 4_000, 200_000, ints::int_partial_minmax);
+
+    const F_CLAMP: &str = "clamped / clamp / *_inclusive_range / is_between(+range form) / clamped01 / clamp01 / is_between01 on floats incl. +-0, +-inf, NaN, neighbours of the bounds: panic <=> not lower<=upper (NaN bounds panic), value = v inside / nearer bound outside (NaN value: only the panic law), is_between <=> clamp is identity, idempotent";
+    const F_W: &str = "float wrapped / wrap: finite, in [0, upper] and congruent to the value modulo upper (exact fmod), both within 8 eps max(|value|, upper); panic for upper <= 0 (wrapped, wrap, pingpong); non-finite value: no panic; values: +-0, multiples of the period and their ulp neighbours, +-1e-20, subnormals, up to 1e15 (1e12 for f32)";
+    const F_WB: &str = "float wrapped_between / wrap_between: finite, in [lower, upper] and congruent to the value modulo upper-lower within 8 eps max(|value|, upper), for 0 <= lower < upper incl. lower = +-0 and adjacent bounds; panic for lower >= upper, lower < 0, upper <= 0";
+    const F_PP: &str = "float pingpong: in [0, upper] and equal to the triangle wave of period 2*upper (distance to the nearest multiple of 2*upper via exact fmod) within 8 eps max(|value|, 2*upper)";
+    const F_DA: &str = "delta_angle: finite, in [-pi, pi] and congruent to target-self modulo 2pi (the type's constants), within 8 eps max(|self|+|target|, 2pi); angles: random, multiples of pi/6, ulp neighbours of multiples of pi, up to 1e6 pi";
+    const F_DD: &str = "delta_angle_degrees: integer degrees (|x| <= 10000, all operations exact): exactly the unique value in (-180, 180] congruent to target-self mod 360 (+180 at half a turn); general values: in [-180, 180] and congruent within 8 eps max(|self|+|target|, 360)";
+    const F_2PI: &str = "wrapped_2pi / wrap_2pi: in [0, 2pi] and congruent to the value modulo 2pi (the type's PI+PI) within 8 eps max(|value|, 2pi)";
+    const F_MM: &str = "partial_min / partial_max on floats (non-NaN, incl. +-0, +-inf, ties, ulp neighbours): bitwise one of the arguments, bounding both; NaN argument: no panic";
+    macro_rules! floats {
+        ($F:ty, $n:expr) => {
+            tape!(concat!("float-clamp-", $n), F_CLAMP, 48, 30_000, 750_000, floats::f_clamp::<$F>);
+            tape!(concat!("float-wrapped-", $n), F_W, 48, 40_000, 1_000_000, floats::f_wrapped::<$F>);
+            tape!(concat!("float-wrapbetween-", $n), F_WB, 64, 40_000, 1_000_000, floats::f_wrapped_between::<$F>);
+            tape!(concat!("float-pingpong-", $n), F_PP, 48, 40_000, 1_000_000, floats::f_pingpong::<$F>);
+            tape!(concat!("float-delta-angle-", $n), F_DA, 48, 25_000, 600_000, floats::f_delta_angle::<$F>);
+            tape!(concat!("float-delta-degrees-", $n), F_DD, 48, 25_000, 600_000, floats::f_delta_angle_degrees::<$F>);
+            tape!(concat!("float-wrapped-2pi-", $n), F_2PI, 32, 10_000, 250_000, floats::f_wrapped_2pi::<$F>);
+            tape!(concat!("float-partial-minmax-", $n), F_MM, 32, 5_000, 100_000, floats::f_partial_minmax::<$F>);
+        };
+    }
+    floats!(f64, "f64");
+    floats!(f32, "f32");
+
+    const L: &str = "vector lifts (Vec2 Vec3 Vec4 Vec8 Vec16 Rgba Rgb Extent3 Extent2 Uv Uvw, chosen by the tape) with independent lanes: clamped / clamp / clamped_to_inclusive_range / is_between(+range form) / clamped01 / clamped_minus1_1 / is_between01 / wrapped / wrap / wrapped_between / pingpong, vector-bound and scalar-bound (broadcast) impls: lane i == scalar function on lane i, the vector form panics iff some lane panics";
+    tape!("lift-i32", L, 256, 15_000, 400_000, lifts::lift_int);
+    tape!("lift-f32", L, 256, 15_000, 400_000, lifts::lift_float);
+
+    Property {
+        id: "C17",
+        rule: "8-bit integer checks enumerate an index space (value, lower, upper) in T^3 resp. (value, upper) in T^2 (T^3 is split into the part where the documented preconditions hold and the part where a panic is required, because a caught panic costs ~2 us wall; quick: the 2^16 spaces and the boundary cubes completely, a seeded arithmetic progression of 2^20 triples of the precondition-holds part and 2^15 of the must-panic part; thorough: everything, i.e. all 2^24 triples per type and function); wider integers, floats and vector lifts are byte tapes generated by proptest and decoded by stratified generators. A case is non-trivial when the value lies outside [lower, upper) (resp. [0, upper)), or ties with a bound (value == lower/upper, lower == upper, exact multiple), or an argument sits at a type limit, or a required panic is exercised (floats: also NaN/inf arguments); vector lifts: lanes not all equal; distinct = distinct index resp. distinct consumed tape prefix per check",
+        assumptions: &[
+            "rustc, std (i128 arithmetic, rem_euclid, catch_unwind) and the proptest runner/shrinker are trusted",
+            "the integer oracle is an i128 model written from the mathematical definitions (unique residue in [lower, upper), distance to the nearest multiple of 2*upper, nearer bound); each model result is re-verified against its defining conditions; it never calls vek",
+            "the harness is built with overflow-checks and debug-assertions on: an intermediate overflow inside vek on a primitive integer shows up as a panic, on Wrapping<_> as a wrong value",
+            "F7 signature: the input is tolerated (when F7-wrap-int-overflow is listed open) only if an intermediate of vek's own formula (lower-self, (lower-self)/range+1, range*(q+1), upper+upper), evaluated exactly in the model, leaves T; every other input must match the model exactly",
+            "float `%` is the exact IEEE remainder (fmod); float tolerances 8*eps*max(|value|, period) are derived from the three to six roundings of the obvious formulas (see floats.rs) and the float domain is restricted so that value/period cannot overflow (|value| <= 1e15 resp. 1e12, period >= ~1e-22)",
+            "vector lifts are compared with the scalar vek functions per lane (those are judged by the other checks)",
+        ],
+        checks,
+        max_discard_frac: 0.05,
+    }
 }
